@@ -2,6 +2,7 @@ import DaskModel.Model.BagOps
 import DaskModel.Model.BagShuffle
 import DaskModel.Lemmas.BagReduce
 import DaskModel.Lemmas.BagOps
+import DaskModel.Lemmas.BagShuffle
 import DaskModel.Lemmas.SubMultiset
 /-! # C48 — bag operations equal their Python reference (theorems) -/
 namespace Dask.C48
@@ -209,7 +210,8 @@ theorem repartition_fewer (cuts : Nat → List Nat) (m : Nat) (hm : 0 < m) (b : 
       subst hx
       have hlast : (0 :: xs).getLastD 0 = b.length := by
         rw [List.getLastD_eq_getLast?, hl]; rfl
-      rw [hlast]; simp
+      have hh : ¬ (0 < (0 :: xs).headD 0) := by simp
+      simp only [hh, if_false, hlast, Nat.lt_irrefl]
   simp only [repartitionB, show m ≠ b.length by omega, if_false, hlt, if_true, hfix]
   cases hbs : boundariesFewer b.length m with
   | nil => simp [hbs] at hlen
@@ -240,5 +242,164 @@ theorem nsplitsMore_sum (n m : Nat) (hn : 0 < n) : (nsplitsMore n m).sum = m ∧
     rw [Nat.add_mul, Nat.one_mul] at this
     omega
   · simp [nsplitsMore]; omega
+
+theorem splitPieces_spec (cuts : Nat → List Nat) (l : List (List α × Nat)) (s : Nat)
+    (hc : ∀ i, ∃ rest, cuts i = 0 :: rest ∧ (0 :: rest).Pairwise (· ≤ ·))
+    (hlen : ∀ i (h : i < l.length), (cuts (s + i)).length = l[i].2) :
+    (((l.zipIdx s).map fun pni => if pni.1.2 = 1 then [pni.1.1] else splitWith (cuts pni.2) pni.1.1).flatten).flatten
+        = (l.map (·.1)).flatten ∧
+    ((l.zipIdx s).map fun pni => if pni.1.2 = 1 then [pni.1.1] else splitWith (cuts pni.2) pni.1.1).flatten.length
+        = (l.map (·.2)).sum := by
+  induction l generalizing s with
+  | nil => simp
+  | cons pk l ih =>
+    obtain ⟨p, k⟩ := pk
+    have ih' := ih (s + 1) (by
+      intro i h
+      have := hlen (i + 1) (by simp; omega)
+      simpa [Nat.add_assoc, Nat.add_comm 1 i] using this)
+    have h0 := hlen 0 (by simp)
+    simp only [Nat.add_zero, List.getElem_cons_zero] at h0
+    obtain ⟨rest, hcs, hpw⟩ := hc s
+    simp only [List.zipIdx_cons, List.map_cons, List.flatten_cons, List.flatten_append, List.length_append, List.sum_cons]
+    rw [ih'.1, ih'.2]
+    by_cases hk : k = 1
+    · simp [hk]
+    · simp only [hk, if_false]
+      rw [hcs, splitWith_flatten 0 rest p hpw, splitWith_length, ← hcs, h0]
+      simp
+
+/-- **`repartition_den` (more)**: repartitioning to `m > n` partitions keeps the sequence and yields
+    exactly `m` partitions — for ANY cut points inside the partitions that are non-decreasing and start at
+    0 (the code computes them in floating point as `int(len / k * i)`; nothing else about them matters) -/
+theorem repartition_more (cuts : Nat → List Nat) (m : Nat) (b : Bag α) (hb : 0 < b.length) (hlt : b.length < m)
+    (hc : ∀ i, ∃ rest, cuts i = 0 :: rest ∧ (0 :: rest).Pairwise (· ≤ ·))
+    (hlen : ∀ i (h : i < (nsplitsMore b.length m).length), (cuts i).length = (nsplitsMore b.length m)[i]) :
+    den (repartitionB cuts m b) = den b ∧ (repartitionB cuts m b).length = m := by
+  obtain ⟨hsum, hnl⟩ := nsplitsMore_sum b.length m hb
+  simp only [repartitionB, show m ≠ b.length by omega, if_false, show ¬ m < b.length by omega, splitPartitions]
+  have hzl : (b.zip (nsplitsMore b.length m)).length = b.length := by simp [hnl]
+  have := splitPieces_spec cuts (b.zip (nsplitsMore b.length m)) 0 hc (by
+    intro i h
+    have hi : i < (nsplitsMore b.length m).length := by rw [hnl]; omega
+    simp only [Nat.zero_add, List.getElem_zip]
+    exact hlen i hi)
+  refine ⟨?_, ?_⟩
+  · simp only [den]
+    rw [this.1, List.map_fst_zip (by simp [hnl])]
+  · rw [this.2, List.map_snd_zip (by simp [hnl]), hsum]
+
+/-- same number of partitions: the bag itself -/
+theorem repartition_same (cuts : Nat → List Nat) (b : Bag α) : repartitionB cuts b.length b = b := by
+  simp [repartitionB]
+
+/-! ## product, zip -/
+
+theorem flatMap_append_perm {γ : Type} (p : List α) (f g : α → List γ) :
+    (p.flatMap fun x => f x ++ g x).Perm (p.flatMap f ++ p.flatMap g) := by
+  induction p with
+  | nil => simp
+  | cons x xs ih =>
+    simp only [List.flatMap_cons]
+    have h1 : (f x ++ g x ++ List.flatMap (fun x => f x ++ g x) xs).Perm (f x ++ g x ++ (xs.flatMap f ++ xs.flatMap g)) :=
+      List.Perm.append_left _ ih
+    refine h1.trans ?_
+    simp only [List.append_assoc]
+    apply List.Perm.append_left
+    rw [← List.append_assoc, ← List.append_assoc]
+    exact List.Perm.append_right _ List.perm_append_comm
+
+/-- `product`: partition `i * m + j` holds `itertools.product(part_i, part_j)`; as a multiset the result is
+    the product of the sequences (bags promise no order here) -/
+theorem bag_product_perm (a : Bag α) (b : Bag β) :
+    (den (productB a b)).Perm ((den a).flatMap fun x => (den b).map fun y => (x, y)) := by
+  simp only [den, productB]
+  induction a with
+  | nil => simp
+  | cons p ps ih =>
+    simp only [List.flatMap_cons, List.flatten_append, List.flatten_cons, List.flatMap_append]
+    refine List.Perm.append ?_ ih
+    clear ih
+    induction b with
+    | nil => simp
+    | cons q qs ihq =>
+      simp only [List.map_cons, List.flatten_cons]
+      have hsplit := flatMap_append_perm p (fun x => q.map fun y => (x, y)) (fun x => qs.flatten.map fun y => (x, y))
+      simp only [← List.map_append] at hsplit
+      exact (List.Perm.append_left _ ihq).trans hsplit.symm
+
+/-- `zip` of two bags with the same number of partitions and equal partition lengths is `zip` of the sequences -/
+theorem bag_zip_den (a : Bag α) (b : Bag β) (hl : a.length = b.length)
+    (hp : ∀ i (h : i < a.length), a[i].length = (b[i]'(by omega)).length) :
+    ∃ z, zipB a b = some z ∧ den z = (den a).zip (den b) := by
+  refine ⟨List.zipWith List.zip a b, by simp [zipB, hl], ?_⟩
+  simp only [den]
+  induction a generalizing b with
+  | nil => cases b <;> simp_all
+  | cons p ps ih =>
+    cases b with
+    | nil => simp at hl
+    | cons q qs =>
+      have h0 : p.length = q.length := hp 0 (by simp)
+      simp only [List.zipWith_cons_cons, List.flatten_cons]
+      rw [ih qs (by simpa using hl) (by
+        intro i h
+        have := hp (i + 1) (by simp; omega)
+        simpa using this)]
+      exact (List.zip_append h0).symm
+
+/-! ## groupby: the staged task shuffle (`groupby_tasks`)
+
+`k`, `stages` are parameters (the code computes them with `math.log` and `**`); the only thing the
+theorems need is `npartitions ≤ k ^ stages` — validated by the harness for the computed values. -/
+
+theorem shuffle_length (k stages : Nat) (parts : List (List (Nat × α))) : (shuffle k stages parts).length = k ^ stages := by
+  simp only [shuffle]
+  exact stagesFrom_length _ _ _ _ _ (by simp [start])
+
+/-- **`staged_route`**: after all stages an element sits in partition `hash % k^stages` -/
+theorem staged_route (k stages : Nat) (hk : 0 < k) (parts : List (List (Nat × α))) (t : Nat) (e : Nat × α)
+    (he : e ∈ (shuffle k stages parts).getD t []) : t < k ^ stages ∧ e.1 % k ^ stages = t := by
+  have := LowInv_stagesFrom k (k ^ stages) hk stages 0 _ (LowInv_start k (k ^ stages) parts) t e
+    (by simpa [shuffle] using he)
+  obtain ⟨h1, h2⟩ := this
+  rw [Nat.zero_add] at h2
+  exact ⟨h1, by rw [h2, Nat.mod_eq_of_lt h1]⟩
+
+/-- **nothing is lost**: every element of every input partition arrives (in partition `hash % k^stages`) -/
+theorem shuffle_complete (k stages : Nat) (hk : 0 < k) (parts : List (List (Nat × α)))
+    (hlen : parts.length ≤ k ^ stages) (p : Nat) (hp : p < parts.length) (e : Nat × α) (he : e ∈ parts.getD p []) :
+    e ∈ (shuffle k stages parts).getD (e.1 % k ^ stages) [] := by
+  have := MixInv_stagesFrom k stages hk parts hlen stages 0 (by omega) _ (MixInv_start k stages parts hlen) p e hp he
+  rw [Nat.zero_add, mix_full k stages p e.1 (by omega)] at this
+  simpa [shuffle] using this
+
+/-- **nothing is invented**: every element of the output was in some input partition -/
+theorem shuffle_sound (k stages : Nat) (parts : List (List (Nat × α))) (t : Nat) (e : Nat × α)
+    (he : e ∈ (shuffle k stages parts).getD t []) : ∃ p, e ∈ parts.getD p [] := by
+  have key : ∀ (n s : Nat) (ps : List (List (Nat × α))), (∀ t e, e ∈ ps.getD t [] → ∃ p, e ∈ parts.getD p []) →
+      ∀ t e, e ∈ (stagesFrom k (k ^ stages) n s ps).getD t [] → ∃ p, e ∈ parts.getD p [] := by
+    intro n
+    induction n with
+    | zero => intro s ps h; simpa [stagesFrom] using h
+    | succ n ih =>
+      intro s ps h
+      simp only [stagesFrom]
+      apply ih
+      intro t e he
+      obtain ⟨_, j, _, hm, _⟩ := (mem_stageStep k (k ^ stages) s ps t e).mp he
+      exact h _ e hm
+  refine key stages 0 _ ?_ t e (by simpa [shuffle] using he)
+  intro t e he
+  exact ⟨t, ((mem_start _ parts t e).mp he).2⟩
+
+/-- **`colocated`**: elements with equal hash (in particular: equal keys) end in the same partition -/
+theorem shuffle_colocated (k stages : Nat) (hk : 0 < k) (parts : List (List (Nat × α))) (t t' : Nat) (e e' : Nat × α)
+    (he : e ∈ (shuffle k stages parts).getD t []) (he' : e' ∈ (shuffle k stages parts).getD t' [])
+    (hh : e.1 = e'.1) : t = t' := by
+  rw [← (staged_route k stages hk parts t e he).2, ← (staged_route k stages hk parts t' e' he').2, hh]
+
+example : shuffle 2 2 [[(5, 'a'), (2, 'b')], [(3, 'c')], [(6, 'd'), (1, 'e')]] =
+    [[], [(5, 'a'), (1, 'e')], [(2, 'b'), (6, 'd')], [(3, 'c')]] := by decide
 
 end Dask.C48
